@@ -1,9 +1,10 @@
-\* thorough universe: every pair of expose lists up to length 2 on two services, all commit levels (incl. 3/2 and 1/2)
+\* thorough universe: two services with every pair of expose lists (up to length 2 and 1), all commit levels (incl. 3/2 and 1/2)
 \* and sizes, a larger lease collision set, 25k picks from the full product
 CONSTANTS
   Inputs = {}
   MaxExpA = 2
-  MaxExpC = 2
+  MaxExpC1 = 2
+  MaxExpC2 = 1
   LevelIdx = {1, 2, 3, 4, 5}
   SizeIdx = {1, 2, 3, 4, 5}
   Owners = {"o1", "o2"}
